@@ -639,6 +639,13 @@ def annotate_fn(sf, item, blk, counts, meta, mode, qual_name, extra_ensures=None
         if nm not in blk.nested:
             sub.opts = {}
         sub.opts.setdefault('nopub', True)
+        if sub.opts.get('drop'):
+            # R9: a nested fn that is dead code (never called) is dropped from the verified text
+            counts.bump('R9-dropped-dead-code')
+            key = '__VX_NESTED_%s__' % nm
+            placeholders[key] = ''
+            body = body[:bi.start] + 'fn %s() {}' % key + body[bi.end:]
+            continue
         ntext = annotate_fn(sf, orig[0], sub, counts, meta, mode, qual_name + '::' + nm)
         key = '__VX_NESTED_%s__' % nm
         placeholders[key] = ntext
